@@ -499,7 +499,7 @@ func TestCheck(t *testing.T) {
 			}
 		}
 	}
-	c.Extra("exhaustive", fmt.Sprintf("all %d^3 histories of mutators over names {u1,g1,root} x groups {g1,root,zz}", len(muts)))
+	c.Extra("exhaustive_space", fmt.Sprintf("all %d^3 histories of mutators over names {u1,g1,root} x groups {g1,root,zz}", len(muts)))
 	c.SetExhaustive(true)
 
 	// concurrent: 2 workers x 1-2 calls, all schedules with <= 3 pre-emptions
